@@ -168,7 +168,10 @@ func (x *Exec) choose(kind drawKind, n, m int) int {
 			x.seqOutside++
 		}
 		tid = t
-		ans = x.policy.base(t*7919+idx, m)
+		// a constant policy cannot leave a rejection loop (add-link redraws until the two node indices
+		// differ): every 12 draws of a thread the answer is rotated by one - still a pure function of
+		// (thread, draw index), so a thread's data does not depend on the interleaving
+		ans = (x.policy.base(t*7919+idx, m) + idx/12) % m
 	} else {
 		if x.stuck() {
 			x.fires++
